@@ -137,6 +137,66 @@ pub fn cfg_for(driver: &str, tier: &str) -> Option<(Cfg, u32)> {
             c.final_dispatches = 2;
             (c, if q { 1 } else { 2 })
         }
+        // C05: timers — arming ledger, order, cancel, re-arming from other callbacks
+        "timers" => {
+            let mut c = Cfg::base("timers");
+            c.initial_sets = vec![
+                vec![KindSpec::Ping],
+                vec![KindSpec::Ping, KindSpec::Timer(1)],
+                vec![KindSpec::Timer(-1), KindSpec::Timer(1)],
+                vec![KindSpec::Timer(1), KindSpec::Timer(1), KindSpec::Ping],
+            ];
+            c.insertable = vec![KindSpec::Timer(-1), KindSpec::Timer(1), KindSpec::Timer(2), KindSpec::Timer(i8::MAX)];
+            c.max_actors = if q { 3 } else { 4 };
+            c.depth = if q { 4 } else { 6 };
+            c.top_cause2 = false;
+            c.top_advance = true;
+            c.top_dispatch_wait = true;
+            c.top_set_deadline = vec![-1, 2];
+            c.cb_set_deadline = vec![-1, 2];
+            c.cb_insert = true;
+            c.cb_ret_max = true;
+            c.check_wait = true;
+            c.prune = true;
+            c.final_dispatches = 1;
+            (c, if q { 1 } else { 2 })
+        }
+        // C12: how long dispatch waits — timeouts x timer sets x idle sources of every kind
+        "wait" => {
+            let mut c = Cfg::base("wait");
+            let idle = vec![KindSpec::Ping, KindSpec::Chan, FD_RL, FD_RO];
+            let mut sets = vec![];
+            for timers in [
+                vec![],
+                vec![KindSpec::Timer(1)],
+                vec![KindSpec::Timer(-1)],
+                vec![KindSpec::Timer(1), KindSpec::Timer(2)],
+                vec![KindSpec::Timer(10)],
+                vec![KindSpec::Timer(i8::MAX)],
+                vec![KindSpec::Timer(i8::MAX), KindSpec::Timer(2)],
+            ] {
+                let mut s = idle.clone();
+                s.extend(timers);
+                sets.push(s);
+            }
+            c.initial_sets = sets;
+            c.max_actors = 6;
+            c.depth = if q { 4 } else { 5 };
+            c.top_remove = false;
+            c.top_update = false;
+            c.top_advance = true;
+            c.top_dispatch_wait = true;
+            c.top_dispatch_short = true;
+            c.top_dispatch_none = true;
+            c.cb_remove = false;
+            c.cb_update = false;
+            c.cb_enable = false;
+            c.cb_disable = false;
+            c.cb_cause2 = true;
+            c.check_wait = true;
+            c.prune = true;
+            (c, if q { 1 } else { 1 })
+        }
         _ => return None,
     })
 }
